@@ -34,6 +34,8 @@ type c08Ctx struct {
 	caller common.Address
 	value  *big.Int
 	gas    uint64 // gas before the step
+	db       *c07DB
+	gasTable params.GasTable
 }
 
 type c08X struct {
@@ -45,6 +47,14 @@ type c08X struct {
 	fail    bool               // exceptional halt after the charge (e.g. bad jump destination)
 	pcNext  uint64             // expected pc of the following instruction
 	checkPC bool
+	halt    bool               // the instruction halts the frame normally (STOP, RETURN)
+	revert  bool               // ... or with the revert sentinel (REVERT)
+	retOff  *big.Int           // returned data window (halt/revert)
+	retLen  uint64
+	post    func(db *c07DB, img []byte) bool // state effects recorded by the StateDB stub
+	postLbl string
+	pushFromImg func(img []byte) []*big.Int // pushed values that depend on the (expanded) memory image
+	anyPush     int                         // additional pushed words whose value this harness does not decide
 }
 
 type c08Ref struct {
@@ -52,6 +62,10 @@ type c08Ref struct {
 	name string
 	pops int
 	f    func(c *c08Ctx) c08X
+	// pre may constrain or replace the operands before the step runs (bounds of the harness)
+	pre func(args []*big.Int)
+	// jump: the code is the concrete jump layout and one more instruction is fetched
+	jump bool
 }
 
 func c08Word(b []byte) *big.Int { return new(big.Int).SetBytes(b) }
@@ -80,52 +94,52 @@ func c08MemWord(img []byte, off uint64) *big.Int { return c08Word(img[off : off+
 // bitwise / comparison group: decided in BV mode against SMT bit-vector operators
 func c08RefsBV() []c08Ref {
 	r := []c08Ref{
-		{ADD, "add", 2, c08spec("add", c08Gverylow, 2)}, {SUB, "sub", 2, c08spec("sub", c08Gverylow, 2)},
-		{NOT, "not", 1, c08spec("not", c08Gverylow, 1)}, {LT, "lt", 2, c08spec("lt", c08Gverylow, 2)},
-		{GT, "gt", 2, c08spec("gt", c08Gverylow, 2)}, {SLT, "slt", 2, c08spec("slt", c08Gverylow, 2)},
-		{SGT, "sgt", 2, c08spec("sgt", c08Gverylow, 2)}, {EQ, "eq", 2, c08spec("eq", c08Gverylow, 2)},
-		{ISZERO, "iszero", 1, c08spec("iszero", c08Gverylow, 1)}, {AND, "and", 2, c08spec("and", c08Gverylow, 2)},
-		{OR, "or", 2, c08spec("or", c08Gverylow, 2)}, {XOR, "xor", 2, c08spec("xor", c08Gverylow, 2)},
-		{BYTE, "byte", 2, c08spec("byte", c08Gverylow, 2)}, {SIGNEXTEND, "signextend", 2, c08spec("signextend", c08Glow, 2)},
-		{SHL, "shl", 2, c08spec("shl", c08Gverylow, 2)}, {SHR, "shr", 2, c08spec("shr", c08Gverylow, 2)},
-		{SAR, "sar", 2, c08spec("sar", c08Gverylow, 2)},
+		{op: ADD, name: "add", pops: 2, f: c08spec("add", c08Gverylow, 2)}, {op: SUB, name: "sub", pops: 2, f: c08spec("sub", c08Gverylow, 2)},
+		{op: NOT, name: "not", pops: 1, f: c08spec("not", c08Gverylow, 1)}, {op: LT, name: "lt", pops: 2, f: c08spec("lt", c08Gverylow, 2)},
+		{op: GT, name: "gt", pops: 2, f: c08spec("gt", c08Gverylow, 2)}, {op: SLT, name: "slt", pops: 2, f: c08spec("slt", c08Gverylow, 2)},
+		{op: SGT, name: "sgt", pops: 2, f: c08spec("sgt", c08Gverylow, 2)}, {op: EQ, name: "eq", pops: 2, f: c08spec("eq", c08Gverylow, 2)},
+		{op: ISZERO, name: "iszero", pops: 1, f: c08spec("iszero", c08Gverylow, 1)}, {op: AND, name: "and", pops: 2, f: c08spec("and", c08Gverylow, 2)},
+		{op: OR, name: "or", pops: 2, f: c08spec("or", c08Gverylow, 2)}, {op: XOR, name: "xor", pops: 2, f: c08spec("xor", c08Gverylow, 2)},
+		{op: BYTE, name: "byte", pops: 2, f: c08spec("byte", c08Gverylow, 2)}, {op: SIGNEXTEND, name: "signextend", pops: 2, f: c08spec("signextend", c08Glow, 2)},
+		{op: SHL, name: "shl", pops: 2, f: c08spec("shl", c08Gverylow, 2)}, {op: SHR, name: "shr", pops: 2, f: c08spec("shr", c08Gverylow, 2)},
+		{op: SAR, name: "sar", pops: 2, f: c08spec("sar", c08Gverylow, 2)},
 		// environment
-		{ADDRESS, "address", 0, c08env(func(c *c08Ctx) *big.Int { return c08AddrWord(c.self) })},
-		{ORIGIN, "origin", 0, c08env(func(c *c08Ctx) *big.Int { return c08AddrWord(c.evm.Origin) })},
-		{CALLER, "caller", 0, c08env(func(c *c08Ctx) *big.Int { return c08AddrWord(c.caller) })},
-		{CALLVALUE, "callvalue", 0, c08env(func(c *c08Ctx) *big.Int { return c.value })},
-		{CALLDATASIZE, "calldatasize", 0, c08env(func(c *c08Ctx) *big.Int { return big.NewInt(int64(len(c.input))) })},
-		{CODESIZE, "codesize", 0, c08env(func(c *c08Ctx) *big.Int { return big.NewInt(int64(len(c.code))) })},
-		{GASPRICE, "gasprice", 0, c08env(func(c *c08Ctx) *big.Int { return c.evm.GasPrice })},
-		{COINBASE, "coinbase", 0, c08env(func(c *c08Ctx) *big.Int { return c08AddrWord(c.evm.Coinbase) })},
-		{TIMESTAMP, "timestamp", 0, c08env(func(c *c08Ctx) *big.Int { return c.evm.Time })},
-		{NUMBER, "number", 0, c08env(func(c *c08Ctx) *big.Int { return c.evm.BlockNumber })},
-		{DIFFICULTY, "difficulty", 0, c08env(func(c *c08Ctx) *big.Int { return c.evm.Difficulty })},
-		{GASLIMIT, "gaslimit", 0, c08env(func(c *c08Ctx) *big.Int { return new(big.Int).SetUint64(c.evm.GasLimit) })},
-		{PC, "pc", 0, c08env(func(c *c08Ctx) *big.Int { return big.NewInt(1) })},
-		{MSIZE, "msize", 0, c08env(func(c *c08Ctx) *big.Int { return big.NewInt(int64(len(c.mem0))) })},
-		{GAS, "gas", 0, c08env(func(c *c08Ctx) *big.Int { return new(big.Int).SetUint64(c.gas - c08Gbase) })},
-		{POP, "pop", 1, func(c *c08Ctx) c08X { return c08X{gas: c08Gbase} }},
-		{JUMPDEST, "jumpdest", 0, func(c *c08Ctx) c08X { return c08X{gas: 1} }},
+		{op: ADDRESS, name: "address", pops: 0, f: c08env(func(c *c08Ctx) *big.Int { return c08AddrWord(c.self) })},
+		{op: ORIGIN, name: "origin", pops: 0, f: c08env(func(c *c08Ctx) *big.Int { return c08AddrWord(c.evm.Origin) })},
+		{op: CALLER, name: "caller", pops: 0, f: c08env(func(c *c08Ctx) *big.Int { return c08AddrWord(c.caller) })},
+		{op: CALLVALUE, name: "callvalue", pops: 0, f: c08env(func(c *c08Ctx) *big.Int { return c.value })},
+		{op: CALLDATASIZE, name: "calldatasize", pops: 0, f: c08env(func(c *c08Ctx) *big.Int { return big.NewInt(int64(len(c.input))) })},
+		{op: CODESIZE, name: "codesize", pops: 0, f: c08env(func(c *c08Ctx) *big.Int { return big.NewInt(int64(len(c.code))) })},
+		{op: GASPRICE, name: "gasprice", pops: 0, f: c08env(func(c *c08Ctx) *big.Int { return c.evm.GasPrice })},
+		{op: COINBASE, name: "coinbase", pops: 0, f: c08env(func(c *c08Ctx) *big.Int { return c08AddrWord(c.evm.Coinbase) })},
+		{op: TIMESTAMP, name: "timestamp", pops: 0, f: c08env(func(c *c08Ctx) *big.Int { return c.evm.Time })},
+		{op: NUMBER, name: "number", pops: 0, f: c08env(func(c *c08Ctx) *big.Int { return c.evm.BlockNumber })},
+		{op: DIFFICULTY, name: "difficulty", pops: 0, f: c08env(func(c *c08Ctx) *big.Int { return c.evm.Difficulty })},
+		{op: GASLIMIT, name: "gaslimit", pops: 0, f: c08env(func(c *c08Ctx) *big.Int { return new(big.Int).SetUint64(c.evm.GasLimit) })},
+		{op: PC, name: "pc", pops: 0, f: c08env(func(c *c08Ctx) *big.Int { return big.NewInt(1) })},
+		{op: MSIZE, name: "msize", pops: 0, f: c08env(func(c *c08Ctx) *big.Int { return big.NewInt(int64(len(c.mem0))) })},
+		{op: GAS, name: "gas", pops: 0, f: c08env(func(c *c08Ctx) *big.Int { return new(big.Int).SetUint64(c.gas - c08Gbase) })},
+		{op: POP, name: "pop", pops: 1, f: func(c *c08Ctx) c08X { return c08X{gas: c08Gbase} }},
+		{op: JUMPDEST, name: "jumpdest", pops: 0, f: func(c *c08Ctx) c08X { return c08X{gas: 1} }},
 		// memory
-		{MLOAD, "mload", 1, func(c *c08Ctx) c08X {
+		{op: MLOAD, name: "mload", pops: 1, f: func(c *c08Ctx) c08X {
 			x := c08X{gas: c08Gverylow, memOff: c.args[0], memLen: 32}
 			return x
 		}},
-		{MSTORE, "mstore", 2, func(c *c08Ctx) c08X {
+		{op: MSTORE, name: "mstore", pops: 2, f: func(c *c08Ctx) c08X {
 			v := c.args[1]
 			return c08X{gas: c08Gverylow, memOff: c.args[0], memLen: 32, write: func(m []byte) {
 				off := c.args[0].Uint64()
 				copy(m[off:off+32], c08Pad32Left(v))
 			}}
 		}},
-		{MSTORE8, "mstore8", 2, func(c *c08Ctx) c08X {
+		{op: MSTORE8, name: "mstore8", pops: 2, f: func(c *c08Ctx) c08X {
 			v := c.args[1]
 			return c08X{gas: c08Gverylow, memOff: c.args[0], memLen: 1, write: func(m []byte) {
 				m[c.args[0].Uint64()] = byte(new(big.Int).And(v, big.NewInt(0xff)).Uint64())
 			}}
 		}},
-		{CALLDATALOAD, "calldataload", 1, func(c *c08Ctx) c08X {
+		{op: CALLDATALOAD, name: "calldataload", pops: 1, f: func(c *c08Ctx) c08X {
 			// 32 bytes of call data from the offset, zero padded on the right
 			buf := make([]byte, 32)
 			off := c.args[0]
@@ -137,7 +151,7 @@ func c08RefsBV() []c08Ref {
 	}
 	for n := 1; n <= 32; n++ {
 		n := n
-		r = append(r, c08Ref{OpCode(int(PUSH1) + n - 1), "push", 0, func(c *c08Ctx) c08X {
+		r = append(r, c08Ref{op: OpCode(int(PUSH1) + n - 1), name: "push", pops: 0, f: func(c *c08Ctx) c08X {
 			buf := make([]byte, n) // bytes following the opcode at pc = 1, zero beyond the code end
 			if len(c.code) > 2 {
 				copy(buf, c.code[2:])
@@ -147,7 +161,7 @@ func c08RefsBV() []c08Ref {
 	}
 	for n := 1; n <= 16; n++ {
 		n := n
-		r = append(r, c08Ref{OpCode(int(DUP1) + n - 1), "dup", n, func(c *c08Ctx) c08X {
+		r = append(r, c08Ref{op: OpCode(int(DUP1) + n - 1), name: "dup", pops: n, f: func(c *c08Ctx) c08X {
 			out := make([]*big.Int, 0, n+1)
 			for i := n - 1; i >= 0; i-- {
 				out = append(out, c.args[i])
@@ -155,7 +169,7 @@ func c08RefsBV() []c08Ref {
 			out = append(out, c.args[n-1])
 			return c08X{push: out, gas: c08Gverylow}
 		}})
-		r = append(r, c08Ref{OpCode(int(SWAP1) + n - 1), "swap", n + 1, func(c *c08Ctx) c08X {
+		r = append(r, c08Ref{op: OpCode(int(SWAP1) + n - 1), name: "swap", pops: n + 1, f: func(c *c08Ctx) c08X {
 			out := make([]*big.Int, n+1)
 			for i := 0; i <= n; i++ {
 				out[n-i] = c.args[i]
@@ -177,7 +191,7 @@ func c08Pad32Left(v *big.Int) []byte {
 // arithmetic group: decided in Int mode against the integer definitions
 func c08RefsInt() []c08Ref {
 	mk := func(op OpCode, name string, tier uint64, pops int) c08Ref {
-		return c08Ref{op, name, pops, func(c *c08Ctx) c08X {
+		return c08Ref{op: op, name: name, pops: pops, f: func(c *c08Ctx) c08X {
 			return c08X{push: []*big.Int{c08intSpecAll(name, c.args)}, gas: tier}
 		}}
 	}
@@ -240,6 +254,7 @@ func c08Step(refs []c08Ref) {
 	operation := &set.table[opc]
 
 	isPush := opc >= PUSH1 && opc <= PUSH32
+	follow := isPush || ref.jump
 	codeLen := 40
 	if isPush {
 		codeLen = []int{40, 2, 10}[vs.Choice("codelen", 3)]
@@ -258,8 +273,12 @@ func c08Step(refs []c08Ref) {
 			followGas = 1
 		}
 	}
+	if ref.jump {
+		code = c08JumpCode(opc)
+		followGas = 1
+	}
 
-	db := &c07DB{}
+	db := &c07DB{det: true}
 	evm := &EVM{StateDB: db}
 	evm.Context = Context{
 		CanTransfer: func(StateDB, common.Address, *big.Int) bool { return false },
@@ -274,8 +293,8 @@ func c08Step(refs []c08Ref) {
 
 	g := vs.U64("gas")
 	vs.Assume(g < 1<<40) // far above any block gas limit; keeps every affordable memory size below 2^31 bytes
-	if isPush {
-		vs.Assume(g >= c08Gverylow+followGas)
+	if follow {
+		vs.Assume(g >= c08Ghigh+followGas) // enough for the instruction and the one fetched after it
 	}
 	memL := uint64(32 * vs.Choice("memwords", 2) * 2) // 0 or 64 bytes
 	mem0 := vs.BytesN("mem", int(memL))
@@ -284,11 +303,14 @@ func c08Step(refs []c08Ref) {
 	for i := range args {
 		args[i] = vs.BigU("arg", 256)
 	}
+	if ref.pre != nil {
+		ref.pre(args)
+	}
 	if ref.name == "sar" {
 		vs.Known("C08-SAR-zero-shift-ge-256", args[1].Sign() == 0 && args[0].Cmp(big.NewInt(256)) >= 0)
 	}
 	tr := &c07Tracer{}
-	if isPush {
+	if follow {
 		tr.cancelAt = 3
 	}
 	tr.inject = func(mem *Memory, stack *Stack, contract *Contract) {
@@ -314,7 +336,8 @@ func c08Step(refs []c08Ref) {
 	input := vs.Bytes("calldata", 3)
 
 	var err error
-	panicked := vs.NoPanic(func() { _, err = in.Run(contract, input) })
+	var ret []byte
+	panicked := vs.NoPanic(func() { ret, err = in.Run(contract, input) })
 	vs.Assert(!panicked, "step must not panic")
 	st, mem := tr.stack, tr.mem
 
@@ -325,7 +348,7 @@ func c08Step(refs []c08Ref) {
 		return
 	}
 
-	c := &c08Ctx{args: args, mem0: mem0, code: code, input: input, evm: evm, self: selfA, caller: callerA, value: value, gas: g}
+	c := &c08Ctx{args: args, mem0: mem0, code: code, input: input, evm: evm, self: selfA, caller: callerA, value: value, gas: g, db: db, gasTable: set.gas}
 	x := ref.f(c)
 
 	// memory expansion demanded by the specification
@@ -353,10 +376,14 @@ func c08Step(refs []c08Ref) {
 	}
 	vs.Reach("executed")
 	if x.fail {
-		vs.Assert(err != nil, "exceptional halt")
+		vs.Assert(err != nil && err != errExecutionReverted, "exceptional halt")
 		return
 	}
-	vs.Assert(err == nil, "affordable valid step succeeds")
+	if x.revert {
+		vs.Assert(err == errExecutionReverted, "REVERT reports the revert sentinel")
+	} else {
+		vs.Assert(err == nil, "affordable valid step succeeds")
+	}
 	vs.Assert(contract.Gas == g-x.gas-memFee-followGas, "gas charge equals tier + memory expansion")
 	vs.Assert(uint64(mem.Len()) == newLen, "memory grows to the touched word boundary only")
 
@@ -377,9 +404,25 @@ func c08Step(refs []c08Ref) {
 	if opc == MLOAD {
 		x.push = []*big.Int{c08MemWord(img, x.memOff.Uint64())}
 	}
+	if x.pushFromImg != nil {
+		x.push = x.pushFromImg(img)
+	}
 
+	if x.post != nil {
+		vs.Assert(x.post(db, img), x.postLbl)
+	}
+	if x.halt || x.revert {
+		vs.Assert(uint64(len(ret)) == x.retLen, "returned data length")
+		okRet := true
+		for i := uint64(0); i < x.retLen; i++ {
+			if ret[i] != img[x.retOff.Uint64()+i] {
+				okRet = false
+			}
+		}
+		vs.Assert(okRet, "returned data is the memory window")
+	}
 	// stack
-	vs.Assert(st.len() == 1+len(x.push), "stack height")
+	vs.Assert(st.len() == 1+len(x.push)+x.anyPush, "stack height")
 	vs.Assert(st.data[0].Cmp(below) == 0, "entries below the operands untouched")
 	for i, want := range x.push {
 		vs.Assert(st.data[1+i].Cmp(want) == 0, "result equals specification: "+ref.name)
@@ -388,6 +431,8 @@ func c08Step(refs []c08Ref) {
 		vs.Assert(tr.n == 3 && tr.pc3 == x.pcNext, "program counter after the step")
 	}
 }
+
+func VerifC08_StepMem() { c08Step(c08RefsMem()) }
 
 func VerifC08_StepBV()  { c08Step(c08RefsBV()) }
 func VerifC08_StepInt() { c08Step(c08RefsInt()) }
